@@ -9,11 +9,16 @@ RULES = [
     ("r3", "22222222-2222-4222-8222-222222222222", "Title A", {"s1": {"f": "c"}, "s2": {"f": "d"}, "condition": ["all of s*", "1 of nomatch*"]}),
     ("r4", "33333333-3333-4333-8333-333333333333", "Title B", {"sel": {"f|contains": "x*", "g": ["1", "1"]}, "condition": "sel or 1 of _*"}),
     ("r5", None, "Title C", {"sel": {"f": "e"}, "condition": "all of them"}),
+    # validators that look up per-log-source tables: a mapped log source before and after an unmapped one
+    ("r6", "44444444-4444-4444-8444-444444444444", "Title D", {"sel": {"EventID": 1, "Image|endswith": "\\a.exe"}, "condition": "sel"}, {"product": "windows", "service": "sysmon"}),
+    ("r7", "55555555-5555-4555-8555-555555555555", "Title E", {"sel": {"EventID": [7, 11, 4688]}, "condition": "sel"}, {"product": "windows", "service": "system"}),
+    ("r8", "66666666-6666-4666-8666-666666666666", "Title F", {"sel": {"EventID": 4688}, "condition": "sel"}, {"product": "windows", "service": "security"}),
 ]
+PIPELINE = {"name": "p", "priority": 10, "transformations": [{"id": "ac", "type": "add_condition", "conditions": {"idx": "main"}}, {"id": "fm", "type": "field_name_mapping", "mapping": {"f": "F"}}]}
 
 
-def rule_doc(name, rid, title, det):
-    d = {"title": title, "name": name, "status": "test", "level": "low", "logsource": {"category": "c"}, "detection": det, "references": ["http://x", "http://x"], "tags": ["attack.t1000", "attack.t1000"]}
+def rule_doc(name, rid, title, det, logsource=None):
+    d = {"title": title, "name": name, "status": "test", "level": "low", "logsource": logsource or {"category": "c"}, "detection": det, "references": ["http://x", "http://x"], "tags": ["attack.t1000", "attack.t1000"]}
     if rid:
         d["id"] = rid
     return d
@@ -65,10 +70,16 @@ class C19Bounded(Bounded):
                 ev += 1
                 nontriv += 1
                 rules = [SigmaRule.from_dict(rule_doc(*RULES[i])) for i in perm]
-                before = [(r.to_dict(), TextQueryTestBackend().convert_rule(SigmaRule.from_dict(rule_doc(*RULES[i])))) for r, i in zip(rules, perm)]
+                from sigma.processing.pipeline import ProcessingPipeline
+                mkb = lambda: TextQueryTestBackend(ProcessingPipeline.from_dict(PIPELINE))      # a pipeline that rewrites conditions and fields
+                before = [(r.to_dict(), TextQueryTestBackend().convert_rule(SigmaRule.from_dict(rule_doc(*RULES[i]))), mkb().convert_rule(SigmaRule.from_dict(rule_doc(*RULES[i])))) for r, i in zip(rules, perm)]
                 v = SigmaValidator([validators[n] for n in vo])
                 issues = v.validate_rules(iter(rules))
-                after = [(r.to_dict(), TextQueryTestBackend().convert_rule(r)) for r in rules]
+                after = [(r.to_dict(), TextQueryTestBackend().convert_rule(SigmaRule.from_dict(r.to_dict())) if False else TextQueryTestBackend().convert_rule(r)) for r in rules]
+                # conversion through the pipeline of the VALIDATED objects (fresh copies of them for the plain conversion above would hide state kept on the object)
+                rules_p = [SigmaRule.from_dict(rule_doc(*RULES[i])) for i in perm]
+                SigmaValidator([validators[n] for n in vo]).validate_rules(iter(rules_p))
+                after = [a + (mkb().convert_rule(rp),) for a, rp in zip(after, rules_p)]
                 if before != after:
                     k = [RULES[i][0] for (b, a, i) in zip(before, after, perm) if b != a]
                     fail("mutated", f"validation changed the rules {k} (dict form or queries differ before / after); validator order {vo[:4]}..", [list(perm)])
